@@ -106,6 +106,10 @@ def observe(t, ref, ix, periodic):
     if periodic:
         o["neighborlist"] = [[np.sort(np.asarray(x)) for x in md.compute_neighborlist(t, ix["cutoff"], frame=f, periodic=True)]
                              for f in range(t.n_frames)]
+    else:
+        # voxel sizes of the neighbour list depend on the bounding box along the laboratory axes: several cutoffs
+        o["nlist_np"] = {c: [[np.sort(np.asarray(x)) for x in md.compute_neighborlist(t, c, frame=f, periodic=False)]
+                             for f in range(t.n_frames)] for c in ix["nlist_cutoffs"]}
     return o
 
 
@@ -219,6 +223,21 @@ def compare(c, o0, o1, f0, f1, x0, td, ix, case, periodic, mic_d=None, radii=Non
             c.bad("neighbors", "atom %d (distance %.6f, cutoff %.3f) enters/leaves the neighbour set" % (at, dd, ix["cutoff"]), case)
     if not (a ^ b):
         c.nontrivial += 1
+    if not periodic:
+        for cut, lists0 in o0["nlist_np"].items():
+            n0, n1 = lists0[f0], o1["nlist_np"][cut][f1]
+            c.n += 1
+            clean = True
+            for i, (u, v) in enumerate(zip(n0, n1)):
+                for at in set(u.tolist()) ^ set(v.tolist()):
+                    dd = np.linalg.norm(x0[i] - x0[at])
+                    if abs(dd - cut) < 2 * td:
+                        c.excluded += 1
+                    else:
+                        clean = False
+                        c.bad("neighborlist(non-periodic)", "pair (%d,%d) at %.6f nm enters/leaves the neighbour list (cutoff %.3f)" % (i, at, dd, cut), case)
+            if clean:
+                c.nontrivial += 1
     if periodic:
         n0, n1 = o0["neighborlist"][f0], o1["neighborlist"][f1]
         for i, (u, v) in enumerate(zip(n0, n1)):
@@ -278,6 +297,7 @@ def nonperiodic_job(args):
     x0 = t0.xyz[0].astype(np.float64)
     ix = _index_sets(t0.topology, seed)
     ix["cutoff"] = 0.5
+    ix["nlist_cutoffs"] = [0.45, 0.8, 1.0]
     radii = np.array([{"H": 0.12, "C": 0.17, "N": 0.155, "O": 0.152, "S": 0.18}.get(a.element.symbol, 0.17) + 0.14 for a in t0.topology.atoms])
     ca = [a.index for a in t0.topology.atoms if a.name == "CA"]
     bends = np.array([_angle64(x0, ca[i - 2], ca[i], ca[i + 2]) for i in range(2, len(ca) - 2)]) if len(ca) > 4 else np.zeros(0)
@@ -353,8 +373,13 @@ def periodic_job(args):
     L, A = cell["lengths"], cell["angles"]
 
     def traj(X):
+        # frame 0 is a decoy with an ORTHORHOMBIC cell of the same lengths (its results are not used): code that
+        # takes a per-trajectory decision from the first frame's cell shape is exposed by the frames that follow
+        X = np.concatenate([np.asarray(X[:1]), np.asarray(X)])
         F = len(X)
-        return md.Trajectory(np.asarray(X, np.float32), top, unitcell_lengths=np.array([L] * F), unitcell_angles=np.array([A] * F))
+        Ls = np.array([L] * F)
+        As = np.array([[90.0, 90.0, 90.0]] + [list(A)] * (F - 1))
+        return md.Trajectory(np.asarray(X, np.float32), top, unitcell_lengths=Ls, unitcell_angles=As)
 
     def mic_d(p, q, vec=False):
         d, best, _n = mic.min_image(np.asarray(q, float) - np.asarray(p, float), V, 3)
@@ -373,7 +398,7 @@ def periodic_job(args):
         o1 = observe(traj(X), None, ix, True)
         td = 16 * EPS * (np.abs(X).max() + 1.0)
         for f, sft in enumerate(shifts):
-            compare(c, o0, o1, 0, f, x0, td, ix, "atom %d shifted by %s cell vectors" % (a, sft.tolist()), True, mic_d=mic_d)
+            compare(c, o0, o1, 1, f + 1, x0, td, ix, "atom %d shifted by %s cell vectors" % (a, sft.tolist()), True, mic_d=mic_d)
     # whole-system translations
     direction = np.array([0.36, -0.48, 0.8])
     moves = [0.37 * direction, 10 * direction, 300 * direction, 0.5 * V[0] + 0.25 * V[2], -1.5 * V[1]]
@@ -381,7 +406,7 @@ def periodic_job(args):
     o1 = observe(traj(X), None, ix, True)
     for f, m in enumerate(moves):
         td = 16 * EPS * (np.abs(X[f]).max() + 1.0) * (1 + 0)  # wrapping a coordinate of size |T| costs eps32 |T|
-        compare(c, o0, o1, 0, f, x0, td, ix, "whole system translated by %s nm" % np.round(m, 3).tolist(), True, mic_d=mic_d)
+        compare(c, o0, o1, 1, f + 1, x0, td, ix, "whole system translated by %s nm" % np.round(m, 3).tolist(), True, mic_d=mic_d)
     return c.viol, c.n, c.nontrivial, c.excluded, c.worst
 
 
